@@ -565,6 +565,27 @@ Fixpoint c05_who (cf : cfg) (cl : smap event) (last : smap report) (es : list ev
 
 (* ---- C05 / C16 at the level of the controller: the Events actually recorded ---- *)
 
+Definition listener_dec : forall a b : listener, {a = b} + {a <> b}.
+Proof. decide equality; auto using string_dec, Z.eq_dec, bool_dec. Defined.
+Definition event_dec : forall a b : event, {a = b} + {a <> b}.
+Proof. decide equality; auto using string_dec, bool_dec, ingress_dec, vserver_dec, vsroute_dec, tserver_dec, (list_eq_dec listener_dec). Defined.
+
+(* the informer handler may drop an update only if nothing the controller reads has changed: the event is
+   identical (object as projected, class verdict, validation verdict) to the last one about that object *)
+Definition delivery_code (cl : smap event) (e : event) (probe : Z) : Z :=   (* 0 fine; 1 class-relevant drop; 2 other drop *)
+  if negb (probe =? 2) then 0
+  else match event_obj e with
+       | Some (k, cls) =>
+           match lookup k cl with
+           | Some p => if eqb_of event_dec p e then 0
+                       else match event_obj p with
+                            | Some (_, pcls) => if Bool.eqb pcls cls then 2 else 1
+                            | None => 2 end
+           | None => 2       (* an add that was not delivered *)
+           end
+       | None => 2           (* a delete of an existing object that was not delivered *)
+       end.
+
 (* class of a recorded Event: 1 success, 2 success with warning, 3 rejection, 4 problem *)
 Definition report_code (r : report) : Z :=
   match r with
@@ -587,16 +608,18 @@ Definition evs_dec := list_eq_dec (pair_dec string_dec Z.eq_dec).
 (* real Events of one sync (GlobalConfiguration's own events removed by the harness), as (object, class) *)
 Record ctl := mkCtl { ct_events : list (string * Z); ct_writes : list string; ct_obs : obs;
                       ct_verr_expected : bool;   (* the object of this sync is of our class and fails validation *)
-                      ct_verr_reported : bool    (* an Event about it carried the text of the validation error *) }.
+                      ct_verr_reported : bool;   (* an Event about it carried the text of the validation error *)
+                      ct_probe : Z               (* the real informer handler on this event: 0 not probed, 1 passed on to the queue, 2 dropped *) }.
 
 (* returns (first step where the model's reports differ from the recorded Events,
             first step whose accumulated real Events are not truthful, its code,
             first step at which a foreign-class object received an Event or a status write) *)
 Fixpoint ctl_run (cf : cfg) (cl : smap event) (last : smap report) (es : list event) (os : list obs) (cs : list ctl)
-         (i : Z) (acc : Z * Z * Z * Z) : Z * Z * Z * Z :=
+         (i : Z) (acc : Z * Z * Z * Z * (Z * Z)) : Z * Z * Z * Z * (Z * Z) :=
   match es, os, cs with
   | e :: er, ob :: orest, ct :: crest =>
-      let '(dx, ds, dc, df) := acc in
+      let '(dx, ds, dc, df, (dd, dk)) := acc in
+      let dcode := delivery_code cl e (ct_probe ct) in
       let cl' := cluster_apply cl e in
       (* success with and without warning are not distinguished here: the Configurator adds warnings of its
          own (missing Secret, ...) that the arbitration model does not know *)
@@ -613,11 +636,19 @@ Fixpoint ctl_run (cf : cfg) (cl : smap event) (last : smap report) (es : list ev
                if (ds =? 0) && (nonempty bad || (ct_verr_expected ct && negb (ct_verr_reported ct))) then i else ds,
                if (ds =? 0) && (nonempty bad || (ct_verr_expected ct && negb (ct_verr_reported ct)))
                then (if ct_verr_expected ct && negb (ct_verr_reported ct) then 9 else hd 0 bad) else dc,
-               if (df =? 0) && foreign then i else df)
+               if (df =? 0) && foreign then i else df,
+               (if (dd =? 0) && negb (dcode =? 0) then i else dd, if (dd =? 0) && negb (dcode =? 0) then dcode else dk))
   | _, _, _ => acc
   end.
 
+(* acquiring leadership at the end of the history: status writes that name an object of a foreign class
+   (the four arbitrated kinds by the cluster; Policies by the class they carry) *)
+Definition leader_foreign (es : list event) (writes : list string) (pol_writes : list (string * string)) : Z :=
+  let cl := fold_left cluster_apply es [] in
+  Z.of_nat (List.length (filter (foreign_in_cluster cl) writes) +
+            List.length (filter (fun kc => negb (has_class "nginx" false None (Some (snd kc)))) pol_writes)).
+
 Definition ctl_case (id : Z) (c : cfg) (es : list event) (os : list obs) (final : obs)
-           (alts : list (list event * obs)) (cs : list ctl) : list Z :=
-  let '(dx, ds, dc, df) := ctl_run c [] [] es os cs 1 (0, 0, 0, 0) in
-  [id; dx; ds; dc; df; Z.of_nat (List.length es)].
+           (alts : list (list event * obs)) (cs : list ctl) (lw : list string) (pw : list (string * string)) : list Z :=
+  let '(dx, ds, dc, df, (dd, dk)) := ctl_run c [] [] es os cs 1 (0, 0, 0, 0, (0, 0)) in
+  [id; dx; ds; dc; df; Z.of_nat (List.length es); dd; dk; leader_foreign es lw pw].
